@@ -65,6 +65,7 @@ class FortescueModel(Model):
         self.group = 'Interface'
         self.flags.pflow = True
         self.flags.tds = True
+        self.flags.tds_init = False  # keep the power flow solution; `v_str` are only starting guesses
 
         self.a = ExtAlgeb(model='Bus', src='a', indexer=self.bus, tex_name=r'\theta_1',
                           info='phase angle of single-phase eq. bus',
